@@ -29,12 +29,17 @@ LEVEL_TEXT = (
     "Every name the real PDDLWriter / ANMLWriter chose for a model item of a generated problem with adversarial identifiers "
     "is judged against the target language's identifier grammar and keyword list, for per-namespace distinctness "
     "(case-insensitive for PDDL) and, for PDDL, for get_item_named / get_pddl_name being mutually inverse; the written "
-    "texts are re-lexed so that names that bypass the lookup tables are seen too.  Held on the problems observed."
+    "texts are re-lexed so that names that bypass the lookup tables are seen too.  In the thorough tier the repository's own "
+    "test-suite is re-run with pass-through wrappers on PDDLWriter._write_domain/_write_problem and ANMLWriter._write_problem and "
+    "every output is judged by the same oracle on the writer object that produced it.  Held on the problems observed."
 )
 LEVEL_NOTE = (
     "Trusted: vk/ref/names.py (grammar + keyword tables transcribed from the PDDL 3.1 BNF and the ANML manual; PDDL words "
     "are enforced per language fragment actually used by the file, words that benchmark domains use as symbols such as "
-    "'at' outside durative actions are observations only), the read-only accessors of the model, a small S-expression lexer."
+    "'at' outside durative actions are observations only), the read-only accessors of the model, a small S-expression lexer. "
+    "Suite monitor (vk/mon/universal.install_names): trusted are also pytest/xdist and the monkey-patched wrappers (the text is "
+    "written to a buffer and passed through); a PDDL writer is judged after each of its two files (a domain judged alone is "
+    "held to the reserved words of the fragments that file uses); writers of non-`Problem` classes (MA-PDDL) are counted as unjudged."
 )
 RULE = (
     "cases = generated problems (vk.gen.problem grammar restricted to what the writers accept; every 3rd with durative "
@@ -42,13 +47,16 @@ RULE = (
     "vk.gen.idents_pn (case variants of one another, PDDL/ANML keywords, symbols, leading digits, names equal to mangled "
     "forms of other names); each case is written by PDDLWriter under two keyword-set histories and by ANMLWriter. "
     "evaluations = judged (writer, history, problem) outputs; distinct_nontrivial = distinct (recipe, writer) pairs in "
-    "which >= 2 items of one namespace collide under naive sanitisation (lower-casing / replacing illegal characters)."
+    "which >= 2 items of one namespace collide under naive sanitisation (lower-casing / replacing illegal characters). "
+    "Thorough tier only: one run of unified_planning/test under M-names; one evaluation = one written file judged "
+    "(suite:M-names:judged); witnesses carry the test id (\"suite\": true) and are replayed by re-running that test file under "
+    "the monitor; inconclusive if the suite ran and fewer than 100 files were judged."
 )
 ASSUMPTIONS = [
     "the PDDL 3.1 BNF / ANML manual word lists in vk/ref/names.py are the languages' keywords",
     "namespaces: types; predicates+functions; actions; objects+constants; parameters and variables within one action",
 ]
-SHARD_TIMEOUT = {"quick": 600, "thorough": 3000}
+SHARD_TIMEOUT = {"quick": 600, "thorough": 7200}
 N_CASES = {"quick": 420, "thorough": 25600}
 
 PROFILE = dict(
@@ -67,7 +75,16 @@ def plan(tier, seed):
     return simple_plan(PROPERTY, tier, seed, N_CASES["quick"], N_CASES["thorough"], shards_quick=4, shards_thorough=16)  # (quick tier work ~6 CPU-s; every shard costs ~2.5 CPU-s of imports)
 
 
+SUITE = (("names",), "M-names:judged")
+
+
 def run_shard(spec, res):
+    if spec["tier"] == "thorough" and spec["shard"] == 1:
+        # the repository's own test-suite re-run with the universal monitor M-names installed (DESIGN §4): every PDDL / ANML
+        # text the tests (and the PDDL-based engines they drive) write is judged on the writer object that wrote it
+        from vk.mon import suite as _suite
+
+        _suite.feed(res, PROPERTY, _suite.run_suite(SUITE[0]), SUITE[1])
     for key in spec["cases"]:
         run_case(key, spec["tier"], res)
     if spec["shard"] == 0:
@@ -75,6 +92,11 @@ def run_shard(spec, res):
 
 
 def replay(witness, res):
+    if witness.get("suite"):
+        from vk.mon import suite as _suite
+
+        _suite.replay_suite(res, PROPERTY, SUITE[0], SUITE[1], witness)
+        return
     if witness.get("example"):
         run_examples(witness.get("tier", "quick"), res, only=witness["example"])
     else:
@@ -324,6 +346,17 @@ def judge_pddl(pb, rec, groups, wbase, res, temporal):
         res.count("pddl_writer_rejected")
         res.count("pddl_writer_internal_exception:" + type(ex).__name__)
         return None
+    return judge_pddl_output(w, dom, prob, groups, wbase, res, temporal)
+
+
+def judge_pddl_output(w, dom, prob, groups, wbase, res, temporal):
+    """Judges the names a PDDLWriter `w` chose while it wrote the texts `dom` / `prob` (also used by the universal monitor
+    M-names on the writers the repository's test-suite creates)."""
+    from unified_planning.exceptions import UPException
+
+    def viol(mech, summary, **kw):
+        res.violation("pddl:" + mech, "PDDLWriter: " + summary, {**wbase, "writer": "pddl", **kw})
+
     res.case()
     res.mon()
     res.count("judged:pddl:" + wbase["history"])
@@ -460,12 +493,24 @@ def judge_anml(pb, rec, groups, wbase, res):
             res.count("anml_writer_rejected")
             res.count("anml_writer_internal_exception:" + type(ex).__name__)
             return False
+    return judge_anml_output(cap.pairs, text, groups, rec, wbase, res)
+
+
+def judge_anml_output(pairs, text, groups, rec, wbase, res):
+    """Judges the (item, name) pairs that flowed through `_get_anml_name` while an ANMLWriter wrote `text` (also used by the
+    universal monitor M-names)."""
+    from unified_planning.model import Parameter, Variable
+    from unified_planning.model.types import Type
+
+    def viol(mech, summary, **w):
+        res.violation("anml:" + mech, "ANMLWriter: " + summary, {**wbase, "writer": "anml", **w})
+
     res.case()
     res.mon()
     res.count("judged:anml")
     name_of = {}
     items = []
-    for item, n in cap.pairs:
+    for item, n in pairs:
         if isinstance(item, Type) and not item.is_user_type():
             continue
         if any(item is it or (type(item) is type(it) and item == it) for it, _ in items):
@@ -577,4 +622,7 @@ def thresholds(m):
     judged = c.get("judged:pddl:fresh", 0)
     if c.get("pddl_writer_rejected", 0) > 2 * max(judged, 1) * 2:
         out.append("the PDDL writer rejected most problems")
+    from vk.mon import suite as _suite
+
+    out.extend(_suite.thresholds(c, SUITE[1], 100))
     return out
